@@ -225,7 +225,7 @@ def _chk_bintest(args, res, old):
             return "adjusted p of bin %r is %r, expected %r" % ((r.chromosome, r.start, r.end), r.p_bintest, qd[(r.chromosome, r.start, r.end)])
 
 
-contract("cnvlib/bintest.py::do_bintest", params=dict(cnarr=ObjT("CopyNumArray")), bounded=True, gen=_gen_bintest,
+contract("cnvlib/bintest.py::do_bintest#rt", params=dict(cnarr=ObjT("CopyNumArray")), bounded=True, gen=_gen_bintest,
          call=_call_bintest, props=("C17",), checks=[("exactly_the_bins_below_alpha", _chk_bintest)])
 
 
@@ -252,10 +252,44 @@ contract(
         ("bh_of_two_sided_tails", "result == BH(Vec(len(cnarr.data), lambda k: 2 * normcdf(-abs(cnarr.data.log2[k] / "
                                   "sqrt(1 - cnarr.data.weight[k])))))"),
     ],
-    props=("C17",), domain="skip",
+    props=("C17",), domain="skip", inline=True,
     canaries=[("one_sided", "p = 2.0 * norm.cdf(-np.abs(z))", "p = norm.cdf(-np.abs(z))"),
               ("variance_not_sd", "sd = np.sqrt(1 - cnarr[\"weight\"])", "sd = 1 - cnarr[\"weight\"]"),
               ("no_abs", "norm.cdf(-np.abs(z))", "norm.cdf(-z)")],
     notes="p_adjust_bh is applied as an opaque function BH of the whole p-vector (its step-up definition is the bounded "
           "contract's business); norm.cdf and sqrt are abstract symbols",
+)
+
+
+# ----------------------------------------------------------------------------- deductive: bintest selects the bins below alpha
+# residuals() (segments=None) is an opaque function RES of the log2 column; z_prob's real body is executed in place;
+# BH stays an opaque vector function whose elements are uninterpreted (one function per argument vector, congruent).
+opaque_fun("RES")
+contract("cnvlib/cnary.py::CopyNumArray.residuals", params=dict(self=_BINS_W, segments=Lit(None)),
+         returns=FunResT("RES", "self.data.log2"), trusted=True, requires=[], ensures=[], props=(), domain="skip",
+         notes="without segments: each bin's log2 minus its chromosome's median -- here an opaque function RES of the log2 "
+               "column (same index); its definition is the bounded contracts' business (C17 do_bintest#rt, C04)")
+
+_PADJ = "BH(Vec(len(cnarr.data), lambda q: 2 * normcdf(-abs(RES(cnarr.data.log2)[q] / sqrt(1 - cnarr.data.weight[q])))))"
+contract(
+    "cnvlib/bintest.py::do_bintest",
+    params=dict(cnarr=_BINS_W, segments=Lit(None), alpha=Real, target_only=Lit(False)),
+    returns=ObjT("CopyNumArray", data=TabT(index="masked", chromosome=CHROM, start=Int, end=Int, gene=GENE, log2=Real, weight=Real,
+                                           probes=Int, p_bintest=Real), meta=DictT()),
+    requires=["forall(0, len(cnarr.data), lambda k: cnarr.data.weight[k] < 1)"],
+    ensures=[
+        # exactly the bins whose Benjamini-Hochberg-adjusted two-sided normal tail probability of residual / sqrt(1 - weight)
+        # is below alpha, in order, each with that residual and that probability (result.data.index = their positions)
+        ("hits_are_bins_below_alpha", "forall(0, len(result.data), lambda j: let(lambda k: 0 <= k and k < len(cnarr.data) and "
+                                      "PADJ[k] < alpha and result.data.chromosome[j] == cnarr.data.chromosome[k] and "
+                                      "result.data.start[j] == cnarr.data.start[k] and result.data.end[j] == cnarr.data.end[k] and "
+                                      "result.data.log2[j] == RES(cnarr.data.log2)[k] and result.data.p_bintest[j] == PADJ[k] and "
+                                      "result.data.probes[j] == 1, result.data.index[j]))".replace("PADJ", _PADJ)),
+        ("in_order", "forall(0, len(result.data), lambda a: forall(0, len(result.data), lambda b: implies(a < b, result.data.index[a] < result.data.index[b])))"),
+        ("every_bin_below_alpha_is_a_hit", "forall(0, len(cnarr.data), lambda k: implies(PADJ[k] < alpha, "
+                                           "exists(0, len(result.data), lambda j: result.data.index[j] == k)))".replace("PADJ", _PADJ)),
+    ],
+    props=("C17",), domain="skip",
+    canaries=[("le_alpha", 'is_sig = cnarr["p_bintest"] < alpha', 'is_sig = cnarr["p_bintest"] <= alpha'),
+              ("raw_log2_tested", 'cnarr["log2"] = resid', 'pass')],
 )
